@@ -337,3 +337,15 @@ def ok_return_blocks(body):
         if place_local(s["d"]) == 0 and not place_proj(s["d"]) and r.get("agg") == "adt" and r.get("variant") in ("Ok", "Some"):
             out.append((bb, j, s))
     return out
+
+
+def allowed_variants(allowed, allv, names):
+    """variant names selected by a set of switch edges (None = the otherwise edge = every unlisted variant)"""
+    listed = {v for v in allv if v is not None}
+    out = set()
+    for v in allowed:
+        if v is None:
+            out |= {n for k, n in enumerate(names) if k not in listed}
+        elif v < len(names):
+            out.add(names[v])
+    return out
